@@ -533,6 +533,12 @@ fn compute_intersection_residue_class(
         interval_left.start.try_to_i64().unwrap() as i128,
         interval_right.start.try_to_i64().unwrap() as i128,
     );
+    // Normalize the bases to non-negative representatives of their residue classes,
+    // because the `%` and `/` operators used below truncate towards zero.
+    let (base_left, base_right) = (
+        (base_left % stride_left + stride_left) % stride_left,
+        (base_right % stride_right + stride_right) % stride_right,
+    );
     // The result of the extended euclidean algorithm satisfies
     // `gcd = left_inverse * stride_left + right_inverse * stride_right`.
     // For us most important is the equation system
@@ -559,7 +565,7 @@ fn compute_intersection_residue_class(
             + ((base_left % lcm) / gcd * (right_inverse * stride_right)) % lcm // = base_left / gcd * gcd (modulo stride_left)
             + base_left % gcd; // = base_left % gcd = base_right % gcd
                                // Ensure that the residue class is not negative
-        let residue_class = (residue_class + lcm) % lcm;
+        let residue_class = (residue_class % lcm + lcm) % lcm;
 
         // Since we cannot rule out integer overflows for all possible inputs,
         // we need to check the correctness of the result.
